@@ -719,6 +719,102 @@ Proof.
 Qed.
 
 
+(* ================================================================== (d) commit-object header scan *)
+Lemma strip_prefix_app p s : strip_prefix p (p ++ s) = Some s.
+Proof. induction p as [|x p IH]; simpl; [reflexivity|]. rewrite N.eqb_refl. exact IH. Qed.
+
+Lemma hex_not_ws c : is_hex c = true -> is_ws c = false.
+Proof. unfold is_hex, is_ws. lia. Qed.
+
+Lemma hex_trim_end s : forallb is_hex s = true -> trim_end s = s.
+Proof.
+  induction s as [|c s IH]; simpl; [reflexivity|].
+  intro H. apply andb_true_iff in H as [H1 H2]. rewrite (IH H2).
+  destruct s; [rewrite (hex_not_ws _ H1)|]; reflexivity.
+Qed.
+
+Lemma hex_trim s : forallb is_hex s = true -> trim s = s.
+Proof.
+  intro H. unfold trim. rewrite (hex_trim_end _ H).
+  destruct s as [|c s]; [reflexivity|]. simpl in *. apply andb_true_iff in H as [H _].
+  rewrite (hex_not_ws _ H). reflexivity.
+Qed.
+
+Lemma hex_no c s : (forall x, is_hex x = true -> (x =? c) = false) -> forallb is_hex s = true -> mem c s = false.
+Proof.
+  intros Hc. induction s as [|x s IH]; simpl; [reflexivity|].
+  intro H. apply andb_true_iff in H as [H1 H2]. rewrite (Hc _ H1), (IH H2). reflexivity.
+Qed.
+
+Lemma hex_no_nl s : forallb is_hex s = true -> mem c_nl s = false.
+Proof. apply hex_no. intros x. unfold is_hex, c_nl. lia. Qed.
+
+Lemma hex_no_cr s : forallb is_hex s = true -> mem c_cr s = false.
+Proof. apply hex_no. intros x. unfold is_hex, c_cr. lia. Qed.
+
+Lemma line_plain kw s :
+  mem c_nl kw = false -> mem c_cr kw = false -> forallb is_hex s = true ->
+  mem c_nl (kw ++ s) = false /\ strip_cr (kw ++ s) = kw ++ s.
+Proof.
+  intros H1 H2 H. split.
+  - rewrite mem_false_app, H1, (hex_no_nl _ H). reflexivity.
+  - apply strip_cr_id. destruct (last_is c_cr (kw ++ s)) eqn:E; [|reflexivity].
+    apply last_is_mem in E. rewrite mem_false_app, H2, (hex_no_cr _ H) in E. discriminate.
+Qed.
+
+(* the parsed tree / first parent are those of the header, whatever follows the two lines
+   (other headers, the message): the scan with the early exit never reads past the parent line *)
+Theorem meta_header T P rest :
+  oid_ok T = true -> oid_ok P = true ->
+  let content := meta_kw_tree ++ T ++ c_nl :: meta_kw_parent ++ P ++ c_nl :: rest in
+  commit_meta_gen true content = (T, Some P) /\ header_meta content = (T, Some P).
+Proof.
+  unfold oid_ok. intros HT HP.
+  apply andb_true_iff in HT as [HTn HT]. apply andb_true_iff in HP as [HPn HP].
+  cbv zeta.
+  destruct (line_plain meta_kw_tree T eq_refl eq_refl HT) as [A1 A2].
+  destruct (line_plain meta_kw_parent P eq_refl eq_refl HP) as [B1 B2].
+  assert (EL : lines (meta_kw_tree ++ T ++ c_nl :: meta_kw_parent ++ P ++ c_nl :: rest)
+               = (meta_kw_tree ++ T) :: (meta_kw_parent ++ P) :: lines rest).
+  { rewrite app_assoc. rewrite (lines_cons _ _ A1), A2.
+    rewrite app_assoc. rewrite (lines_cons _ _ B1), B2. reflexivity. }
+  assert (NT : strip_prefix meta_kw_tree (meta_kw_parent ++ P) = None) by reflexivity.
+  assert (NP : strip_prefix meta_kw_parent (meta_kw_tree ++ T) = None) by reflexivity.
+  split.
+  - assert (S1 : meta_step (meta_kw_tree ++ T) ([], None) = (T, None)).
+    { unfold meta_step. rewrite strip_prefix_app, (hex_trim _ HT). reflexivity. }
+    assert (S2 : meta_step (meta_kw_parent ++ P) (T, None) = (T, Some P)).
+    { unfold meta_step. rewrite NT, strip_prefix_app, (hex_trim _ HP). reflexivity. }
+    unfold commit_meta_gen. rewrite EL. cbn [scan_meta]. rewrite S1.
+    cbn [fst snd is_some andb]. rewrite andb_false_r. rewrite S2.
+    cbn [fst snd is_some andb]. rewrite HTn. reflexivity.
+  - unfold header_meta. rewrite EL. cbn [header_lines].
+    assert (N1 : nonempty (meta_kw_tree ++ T) = true) by reflexivity.
+    assert (N2 : nonempty (meta_kw_parent ++ P) = true) by reflexivity.
+    rewrite N1, N2. cbn [first_with].
+    rewrite strip_prefix_app, NP, strip_prefix_app, (hex_trim _ HT), (hex_trim _ HP). reflexivity.
+Qed.
+
+Definition wit_root_commit : str := [116; 114; 101; 101; 32; 97; 97; 97; 97; 97; 97; 97; 97; 97; 97; 97; 97; 97; 97; 97; 97; 97; 97; 97; 97; 97; 97; 97; 97; 97; 97; 97; 97; 97; 97; 97; 97; 97; 97; 97; 97; 97; 97; 97; 97; 10; 97; 117; 116; 104; 111; 114; 32; 65; 32; 60; 97; 64; 98; 62; 32; 49; 32; 43; 48; 48; 48; 48; 10; 99; 111; 109; 109; 105; 116; 116; 101; 114; 32; 65; 32; 60; 97; 64; 98; 62; 32; 49; 32; 43; 48; 48; 48; 48; 10; 10; 115; 117; 98; 106; 101; 99; 116; 10; 10; 112; 97; 115; 116; 101; 100; 58; 10; 116; 114; 101; 101; 32; 98; 98; 98; 98; 98; 98; 98; 98; 98; 98; 98; 98; 98; 98; 98; 98; 98; 98; 98; 98; 98; 98; 98; 98; 98; 98; 98; 98; 98; 98; 98; 98; 98; 98; 98; 98; 98; 98; 98; 98; 10; 112; 97; 114; 101; 110; 116; 32; 99; 99; 99; 99; 99; 99; 99; 99; 99; 99; 99; 99; 99; 99; 99; 99; 99; 99; 99; 99; 99; 99; 99; 99; 99; 99; 99; 99; 99; 99; 99; 99; 99; 99; 99; 99; 99; 99; 99; 99; 10].
+Definition wit_child_commit : str := [116; 114; 101; 101; 32; 97; 97; 97; 97; 97; 97; 97; 97; 97; 97; 97; 97; 97; 97; 97; 97; 97; 97; 97; 97; 97; 97; 97; 97; 97; 97; 97; 97; 97; 97; 97; 97; 97; 97; 97; 97; 97; 97; 97; 97; 10; 112; 97; 114; 101; 110; 116; 32; 99; 99; 99; 99; 99; 99; 99; 99; 99; 99; 99; 99; 99; 99; 99; 99; 99; 99; 99; 99; 99; 99; 99; 99; 99; 99; 99; 99; 99; 99; 99; 99; 99; 99; 99; 99; 99; 99; 99; 99; 10; 97; 117; 116; 104; 111; 114; 32; 65; 32; 60; 97; 64; 98; 62; 32; 49; 32; 43; 48; 48; 48; 48; 10; 99; 111; 109; 109; 105; 116; 116; 101; 114; 32; 65; 32; 60; 97; 64; 98; 62; 32; 49; 32; 43; 48; 48; 48; 48; 10; 10; 115; 117; 98; 106; 101; 99; 116; 10; 10; 116; 114; 101; 101; 32; 98; 98; 98; 98; 98; 98; 98; 98; 98; 98; 98; 98; 98; 98; 98; 98; 98; 98; 98; 98; 98; 98; 98; 98; 98; 98; 98; 98; 98; 98; 98; 98; 98; 98; 98; 98; 98; 98; 98; 98; 10].
+Definition wit_tree_T : str := [97; 97; 97; 97; 97; 97; 97; 97; 97; 97; 97; 97; 97; 97; 97; 97; 97; 97; 97; 97; 97; 97; 97; 97; 97; 97; 97; 97; 97; 97; 97; 97; 97; 97; 97; 97; 97; 97; 97; 97].
+Definition wit_tree_X : str := [98; 98; 98; 98; 98; 98; 98; 98; 98; 98; 98; 98; 98; 98; 98; 98; 98; 98; 98; 98; 98; 98; 98; 98; 98; 98; 98; 98; 98; 98; 98; 98; 98; 98; 98; 98; 98; 98; 98; 98].
+Definition wit_parent_P : str := [99; 99; 99; 99; 99; 99; 99; 99; 99; 99; 99; 99; 99; 99; 99; 99; 99; 99; 99; 99; 99; 99; 99; 99; 99; 99; 99; 99; 99; 99; 99; 99; 99; 99; 99; 99; 99; 99; 99; 99].
+
+(* a root commit (no parent header): the early exit is never taken, the scan runs through the message
+   and a body line that looks like a tree header replaces the commit's tree *)
+Theorem meta_root_refuted :
+  header_meta wit_root_commit = (wit_tree_T, None) /\
+  commit_meta_gen true wit_root_commit = (wit_tree_X, Some wit_parent_P).
+Proof. vm_compute. split; reflexivity. Qed.
+
+(* without the early exit the same happens to every commit *)
+Theorem meta_no_exit_refuted :
+  header_meta wit_child_commit = (wit_tree_T, Some wit_parent_P) /\
+  commit_meta_gen true wit_child_commit = (wit_tree_T, Some wit_parent_P) /\
+  commit_meta_gen false wit_child_commit = (wit_tree_X, Some wit_parent_P).
+Proof. vm_compute. repeat split; reflexivity. Qed.
+
 (* ================================================================== witnesses *)
 Definition wit_bad_note : str := [34; 98; 97; 115; 101; 95; 99; 111; 109; 109; 105; 116; 95; 115; 104; 97; 34; 58; 34; 120; 34; 46; 116; 120; 116; 10; 32; 32; 97; 98; 99; 100; 32; 49; 10; 45; 45; 45; 10; 123; 10; 32; 32; 34; 115; 99; 104; 101; 109; 97; 95; 118; 101; 114; 115; 105; 111; 110; 34; 58; 32; 34; 97; 117; 116; 104; 111; 114; 115; 104; 105; 112; 47; 51; 46; 48; 46; 48; 34; 44; 10; 32; 32; 34; 103; 105; 116; 95; 97; 105; 95; 118; 101; 114; 115; 105; 111; 110; 34; 58; 32; 34; 49; 46; 49; 46; 56; 34; 44; 10; 32; 32; 34; 98; 97; 115; 101; 95; 99; 111; 109; 109; 105; 116; 95; 115; 104; 97; 34; 58; 32; 34; 48; 108; 100; 34; 44; 10; 32; 32; 34; 112; 114; 111; 109; 112; 116; 115; 34; 58; 32; 123; 125; 10; 125].
 Definition wit_bad_att' : str := [34; 98; 97; 115; 101; 95; 99; 111; 109; 109; 105; 116; 95; 115; 104; 97; 34; 58; 34; 110; 51; 119; 34; 46; 116; 120; 116; 10; 32; 32; 97; 98; 99; 100; 32; 49; 10; 45; 45; 45; 10].
